@@ -197,8 +197,9 @@ func C09(p *load.Prog, r *oblig.Run) {
 	r.Rule("R09.b", "merging performs no structural write on either input", 2)
 	c09TypedNil(p, r)
 	c09Accounts(p, r)
-	// merging matches children with Equals (C07's pair-search rules)
+	// merging matches children with Equals (C07's pair-search rules) and is built from deep copies
 	c07PairSearch(p, r)
+	c07CopyWalksAll(p, r)
 	r.Rule("R09.c", "a merge function returns nil or a node computed from both operands (nothing of the right node is dropped by a shortcut)", 1)
 	g := cg.New(p, false)
 	mn := p.MustFunc(load.PkgRoot, "MergeNodes")
@@ -342,6 +343,7 @@ func C07(p *load.Prog, r *oblig.Run) {
 	r.Rule("R07.e", "DeepEqual answers true only after the numbers of children of both nodes were compared (or both found zero)", 1)
 	c07EqualShortcuts(p, r)
 	c07PairSearch(p, r)
+	c07CopyWalksAll(p, r)
 	g := cg.New(p, false)
 	dc := p.MustFunc(load.PkgRoot, "DeepCopy")
 	fl := p.MustFunc(load.PkgRoot, "Filter")
